@@ -301,7 +301,7 @@ class World:
                 fs.append(Finding("C17", dict(key, clause="complexity"),
                                   f"{call} returned complexity {cx!r} for {text!r}"))
             try:
-                tree = ExpressionParser().parse(text)
+                tree = core.bounded_parse(text)
             except Exception as e:  # noqa
                 fs.append(Finding("C17", dict(key, clause="unparseable", exc=type(e).__name__),
                                   f"{call} returned {text!r}, which the parser rejects ({type(e).__name__})"))
